@@ -65,6 +65,7 @@ def step (st : DState) (line : String) : DState × String :=
   | "begin" :: "bundle" :: r => let (b, out) := Bundle.handleBegin r; ({ st with bundle := b }, out)
   | "bundle" :: r => let (b, out) := Bundle.handle st.bundle r; ({ st with bundle := b }, out)
   | "begin" :: "interp" :: r => let (s, o) := Driver.Interp.begin r; ({ st with interp := s }, o)
+  | "begin" :: "eof" :: r => let (s, o) := Driver.Interp.beginEof r; ({ st with interp := s }, o)
   | "i" :: r => let (s, o) := Driver.Interp.handle st.interp r; ({ st with interp := s }, o)
   | "interp" :: r => (st, Driver.Interp.handleStateless r)
   | _ => (st, "bad-op")
